@@ -10,7 +10,8 @@ EXTRA = {'C05-host-with-port': ['C09'], 'C09-path-absolute-drops-port': ['C07'],
          'C08e-hq-seencheck-sends-canonical': ['C15'], 'C11e-haswork-forgets-seen': ['C01', 'C08'], 'C12e-run-loop-drops-on-freeze': ['C03'], 'C14e-resume-sequential-backpressure': ['C03'], 'C18e-watcher-paused-flag-not-reset': ['C14'], 'C10e-ada-error-unchecked-nil-deref': ['C09'],
          'C01f-waitgroup-counts-skipped-items': ['C08', 'C16'], 'C03f-finisher-panics-on-frozen-feedback': ['C04', 'C01'], 'C04f-shared-feedback-chan-across-assets': ['C02'], 'C14f-finisher-ack-ignores-cancel': ['C03'], 'C16f-last-retry-body-not-drained': ['C02', 'C01'], 'C15f-unparsable-seed-ack-skipped': ['C10'], 'C12f-input-buffer-capped': [],
          'C17g-gauge-double-decr-on-stop-while-paused': ['C03', 'C14'], 'C04g-lq-discard-flag-sticky': ['C15', 'C01'], 'C02g-proxy-client-without-discard-hook': ['C03'], 'C16g-guard-slot-taken-by-skipped-items': ['C01', 'C08'],
-         'C01h-async-retries-exceeded-waits-on-nil-chan': ['C03', 'C16'], 'C03h-warc-error-logger-exits-on-cancel': ['C02'], 'C07h-seencheck-before-dedupe': ['C08', 'C01'], 'C08h-dedupe-skips-finished-subtrees': ['C11'], 'C14h-disk-watcher-waits-for-space-on-stop': ['C03', 'C18'], 'C06h-hostonly-outlink-keeps-asset-hops': ['C19']}
+         'C01h-async-retries-exceeded-waits-on-nil-chan': ['C03', 'C16'], 'C03h-warc-error-logger-exits-on-cancel': ['C02'], 'C07h-seencheck-before-dedupe': ['C08', 'C01'], 'C08h-dedupe-skips-finished-subtrees': ['C11'], 'C14h-disk-watcher-waits-for-space-on-stop': ['C03', 'C18'], 'C06h-hostonly-outlink-keeps-asset-hops': ['C19'],
+         'C10i-redirect-branch-falls-through': ['C07', 'C01'], 'C18i-watcher-resumes-asynchronously': ['C14'], 'C02i-final-feedback-wait-cut-by-shutdown': ['C03', 'C04'], 'C04i-frozen-consumer-seed-sent-to-finisher': ['C03', 'C01'], 'C16i-limiter-evict-and-insert-in-two-sections': ['C13'], 'C01i-lq-finish-batch-buffer-reused': ['C04', 'C15']}
 for d in sorted(glob.glob('/verif/seeded/*/')):
     name = os.path.basename(d.rstrip('/'))
     if sel and not any(name.startswith(s) for s in sel):
